@@ -423,11 +423,11 @@ func checkWSClose1002(c *Ctx, adv *ssa.Function) {
 		ok := false
 		core.EachInstr(hp, func(in ssa.Instruction) {
 			call, isCall := in.(*ssa.Call)
-			if !isCall || call.Call.StaticCallee() == nil || call.Call.StaticCallee().Name() != "WriteControl" {
+			if !isCall || call.Call.StaticCallee() == nil || core.FnName(call.Call.StaticCallee()) != "WriteControl" {
 				return
 			}
 			mt, _ := core.ConstInt(call.Call.Args[1])
-			if fc, isC := call.Call.Args[2].(*ssa.Call); isC && fc.Call.StaticCallee() != nil && fc.Call.StaticCallee().Name() == "FormatCloseMessage" {
+			if fc, isC := call.Call.Args[2].(*ssa.Call); isC && fc.Call.StaticCallee() != nil && core.FnName(fc.Call.StaticCallee()) == "FormatCloseMessage" {
 				code, _ := core.ConstInt(fc.Call.Args[0])
 				ok = mt == 8 && code == 1002
 			}
@@ -618,35 +618,121 @@ func checkWSCtlPayload(c *Ctx) {
 		R.Check(len(diffs) == 0 && !mutated, "C14.ctlpayload", "websocket|validReceivedCloseCodes|table", "websocket/conn.go",
 			"receivable close codes equal the RFC 6455 / IANA table", "the close-code table differs: "+strings.Join(diffs, "; "), nil)
 	}
-	if fn := P.Func("websocket", "isValidReceivedCloseCode"); R.Anchor(fn != nil, "C14.ctlpayload", "websocket.isValidReceivedCloseCode") {
-		lo, hi := int64(-1), int64(-1)
-		core.EachInstr(fn, func(in ssa.Instruction) {
-			if bo, ok := in.(*ssa.BinOp); ok {
-				if k, isK := core.ConstInt(bo.Y); isK {
-					switch bo.Op {
-					case token.GEQ:
-						lo = k
-					case token.LEQ:
-						hi = k
-					case token.GTR:
-						lo = k + 1
-					case token.LSS:
-						hi = k - 1
-					}
-				}
+	// the validity predicate, by role: the function that looks a code up in the table (isValidReceivedCloseCode on the
+	// pinned tree; the frame parser itself when the predicate is written in place)
+	isTableLookup := func(v ssa.Value) bool {
+		lk, ok := v.(*ssa.Lookup)
+		return ok && core.Path(lk.X) == "websocket.validReceivedCloseCodes"
+	}
+	var predFns []*ssa.Function
+	for _, f := range P.ModuleFuncs("websocket") {
+		has := false
+		core.EachInstr(f, func(in ssa.Instruction) {
+			if v, ok := in.(ssa.Value); ok && isTableLookup(v) {
+				has = true
 			}
 		})
-		R.Check(lo == 3000 && hi == 4999, "C14.ctlpayload", "websocket|isValidReceivedCloseCode|private-range", P.Pos(fn.Pos()),
-			"codes 3000..4999 are receivable", fmt.Sprintf("the application/private close-code range is [%d,%d], RFC 6455 7.4.2 says [3000,4999]", lo, hi), nil)
+		if has {
+			predFns = append(predFns, f)
+		}
+	}
+	if R.Anchor(len(predFns) > 0, "C14.ctlpayload", "websocket.isValidReceivedCloseCode") {
+		for _, fn := range predFns {
+			lo, hi := int64(-1), int64(-1)
+			var key ssa.Value
+			core.EachInstr(fn, func(in ssa.Instruction) {
+				if lk, ok := in.(*ssa.Lookup); ok && isTableLookup(lk) {
+					key = core.StripConv(lk.Index)
+				}
+			})
+			core.EachInstr(fn, func(in ssa.Instruction) {
+				if bo, ok := in.(*ssa.BinOp); ok && core.StripConv(bo.X) == key {
+					if k, isK := core.ConstInt(bo.Y); isK {
+						switch bo.Op {
+						case token.GEQ:
+							lo = k
+						case token.LEQ:
+							hi = k
+						case token.GTR:
+							lo = k + 1
+						case token.LSS:
+							hi = k - 1
+						}
+					}
+				}
+			})
+			R.Check(lo == 3000 && hi == 4999, "C14.ctlpayload", "websocket|isValidReceivedCloseCode|private-range", P.Pos(fn.Pos()),
+				"codes 3000..4999 are receivable", fmt.Sprintf("the application/private close-code range is [%d,%d], RFC 6455 7.4.2 says [3000,4999]", lo, hi), nil)
+		}
+	}
+	isPred := func(f *ssa.Function) bool {
+		for _, g := range predFns {
+			if g == f {
+				return true
+			}
+		}
+		return false
 	}
 	if adv := P.Func("websocket", "(*Conn).advanceFrame"); adv != nil {
 		codeChk, utfChk := false, false
+		// predicate written in place: a guard of the protocol-error call is a boolean built from the table lookup
+		// ("table[code] || range"); the error is on its false side and the lookup's true outcome makes it true
+		var fromTable func(v ssa.Value, d int) bool
+		fromTable = func(v ssa.Value, d int) bool {
+			if d > 6 {
+				return false
+			}
+			switch x := v.(type) {
+			case *ssa.Lookup:
+				return isTableLookup(x)
+			case *ssa.Phi:
+				for i, e := range x.Edges {
+					if isTableLookup(e) {
+						return true
+					}
+					// "a || b": the edge from the block that tested the lookup carries the constant true
+					if c, ok := e.(*ssa.Const); ok && c.Value != nil && c.Value.String() == "true" {
+						pred := x.Block().Preds[i]
+						if iff, ok := pred.Instrs[len(pred.Instrs)-1].(*ssa.If); ok && isTableLookup(iff.Cond) && pred.Succs[0] == x.Block() {
+							return true
+						}
+					}
+					if fromTable(e, d+1) {
+						return true
+					}
+				}
+			}
+			return false
+		}
+		core.EachInstr(adv, func(in ssa.Instruction) {
+			c2, ok := in.(*ssa.Call)
+			if !ok || c2.Call.StaticCallee() == nil || core.FnName(c2.Call.StaticCallee()) != "handleProtocolError" || isPred(adv) == false {
+				return
+			}
+			for _, g := range core.Guards(c2.Block()) {
+				cond, pol := g.Cond, g.Pol
+				for {
+					if u, ok := cond.(*ssa.UnOp); ok && u.Op == token.NOT {
+						cond, pol = u.X, !pol
+						continue
+					}
+					break
+				}
+				if !pol && fromTable(cond, 0) {
+					codeChk = true
+				}
+			}
+		})
 		core.EachInstr(adv, func(in ssa.Instruction) {
 			call, ok := in.(*ssa.Call)
 			if !ok || call.Call.StaticCallee() == nil {
 				return
 			}
-			switch core.FullName(call.Call.StaticCallee()) {
+			name := core.FullName(call.Call.StaticCallee())
+			if isPred(call.Call.StaticCallee()) {
+				name = "websocket.isValidReceivedCloseCode"
+			}
+			switch name {
 			case "websocket.isValidReceivedCloseCode", "utf8.ValidString", "utf8.Valid":
 				// the negative outcome leads to a protocol error
 				for _, r := range *call.Referrers() {
@@ -654,12 +740,12 @@ func checkWSCtlPayload(c *Ctx) {
 						fail := iff.Block().Succs[1]
 						hit := false
 						for _, x := range fail.Instrs {
-							if c2, ok := x.(*ssa.Call); ok && c2.Call.StaticCallee() != nil && c2.Call.StaticCallee().Name() == "handleProtocolError" {
+							if c2, ok := x.(*ssa.Call); ok && c2.Call.StaticCallee() != nil && core.FnName(c2.Call.StaticCallee()) == "handleProtocolError" {
 								hit = true
 							}
 						}
 						if hit {
-							if strings.HasPrefix(core.FullName(call.Call.StaticCallee()), "utf8") {
+							if strings.HasPrefix(name, "utf8") {
 								utfChk = true
 							} else {
 								codeChk = true
@@ -761,7 +847,7 @@ func checkWSCtlPayload(c *Ctx) {
 		ok := false
 		core.EachInstr(h, func(in ssa.Instruction) {
 			call, isCall := in.(*ssa.Call)
-			if !isCall || call.Call.StaticCallee() == nil || call.Call.StaticCallee().Name() != "WriteControl" {
+			if !isCall || call.Call.StaticCallee() == nil || core.FnName(call.Call.StaticCallee()) != "WriteControl" {
 				return
 			}
 			mt, _ := core.ConstInt(call.Call.Args[1])
